@@ -310,3 +310,65 @@ def shrink(parts, pred, budget=150):
                 improved = True
                 break
     return cur
+
+
+# ---------------------------------------------------------------- private properties (C16): suffix-linked components and properties
+PRIV_PAIRS = [('A', 'A,p'), ('Bdir', 'Bdir,p'), ('Bind', 'Bind,p'), ('E', 'E,p'), ('P', 'P,p')]
+
+
+def priv_stmt(tg, rng=None, ncomp=None, nprop=None, kinds=('leaf', 'leaf', 'comb', 'nested'), shuffle=True, extra=True):
+    """Statement around one component type that supports private properties: 1-3 annotations of the component with
+    distinct suffixes ('' / '1' / '2' / '3'), 0-4 properties whose suffix matches one of them, matches none, or is absent;
+    each property a single value, a combination or a nested statement; other components around; any source order."""
+    r = rng or tg.r
+    comp, prop = r.choice(PRIV_PAIRS)
+    ncomp = ncomp or r.randint(1, 3)
+    nprop = r.randint(0, 4) if nprop is None else nprop
+    sufs = r.sample(['', '1', '2', '3'], ncomp)
+    parts = []
+    for s in sufs:
+        c = tg.content(2) if r.random() < 0.3 else ('leaf', tg.word())
+        parts.append(('comp', comp, s, tg.annot(), c))
+    for _ in range(nprop):
+        s = r.choice(sufs + ['', '3', '1'])
+        kind = r.choice(kinds)
+        if kind == 'leaf':
+            parts.append(('comp', prop, s, tg.annot(), ('leaf', tg.word())))
+        elif kind == 'comb':
+            parts.append(('comp', prop, s, tg.annot(), ('comb', '', tg.tree(r.randint(2, 3)), '')))
+        else:
+            inner = [('comp', 'A', '', '', ('leaf', tg.word())), ('comp', 'I', '', '', ('leaf', tg.word()))]
+            if r.random() < 0.4:
+                inner.append(('comp', 'Bdir', '', '', ('leaf', tg.word())))
+            parts.append(('nested', prop, s, tg.annot(), inner))
+    if extra:
+        others = [s for s in ['I', 'D', 'Cac', 'Cex', 'M', 'F'] if r.random() < 0.4]
+        if comp not in ('A', 'E') and r.random() < 0.7:
+            others.append('A')
+        for s in others:
+            parts.append(tg.comp(s, 2))
+    if shuffle:
+        r.shuffle(parts)
+    return parts
+
+
+def priv_systematic(tg, pairs, nprops=3):
+    """Every assignment of nprops properties to {shared, private to X1} for a statement 'X1(..) X(..) props...', once with
+    nested-statement properties and once with primitive ones (C16: all matchings; the source order of the properties is the
+    order of the assignment, so every position of the private property between shared ones occurs)."""
+    import itertools
+    out = []
+    for comp, prop in pairs:
+        for assign in itertools.product(['', '1'], repeat=nprops):
+            for kind in ('nested', 'leaf'):
+                parts = [('comp', comp, '1', '', ('leaf', tg.word())), ('comp', comp, '', '', ('leaf', tg.word()))]
+                if comp not in ('A', 'E'):
+                    parts.insert(0, ('comp', 'A', '', '', ('leaf', tg.word())))
+                parts.append(('comp', 'I' if comp not in ('E', 'P') else 'F', '', '', ('leaf', tg.word())))
+                for s in assign:
+                    if kind == 'nested':
+                        parts.append(('nested', prop, s, '', [('comp', 'A', '', '', ('leaf', tg.word())), ('comp', 'I', '', '', ('leaf', tg.word()))]))
+                    else:
+                        parts.append(('comp', prop, s, '', ('leaf', tg.word())))
+                out.append(parts)
+    return out
